@@ -88,6 +88,7 @@ type Engine struct {
 	initPkgs    map[string]bool
 
 	rtypeT      types.Type
+	snaps       *sync.Map // token byte (term) -> *Snap
 	runtimeErrT types.Type
 	panicNilT   types.Type
 
@@ -136,7 +137,7 @@ type Engine struct {
 }
 
 func NewEngine(prog *ssa.Program, solver *smt.Solver) *Engine {
-	e := &Engine{prog: prog, Solver: solver, Log: os.Stderr, mu: &sync.Mutex{}, solverMu: &sync.Mutex{}, Workers: 1,
+	e := &Engine{prog: prog, Solver: solver, Log: os.Stderr, mu: &sync.Mutex{}, solverMu: &sync.Mutex{}, snaps: &sync.Map{}, Workers: 1,
 		FeasCheck: true, MergeReleases: true, Unwind: 300, MaxDepth: 200, MaxEnum: 16, MaxAlloc: 40000, MaxConfigs: 5_000_000,
 		intrinsics: map[string]Intrinsic{}, modelFns: map[string]*ssa.Function{}, atomicFns: map[string]bool{},
 		visibleFns: map[string]VisKind{},
